@@ -428,6 +428,37 @@ def normalize_matrix(vector: Union[jnp.ndarray, np.ndarray]) -> jnp.ndarray:
     return vector / norm
 
 
+def reduced_state_from_vector(
+    amplitudes: Union[jnp.ndarray, np.ndarray], tol: float = 1e-9
+) -> jnp.ndarray:
+    """
+    Reduced state of the kept subsystems of a pure state, given the amplitudes
+    as a matrix A[kept, traced_out]. The reduced state is A A^dagger; it is
+    returned as a state vector if it is pure (the kept and the traced out part
+    are not entangled) and as a density matrix otherwise.
+
+    Parameters
+    ----------
+    amplitudes: Union[jnp.ndarray, np.ndarray]
+        Amplitudes, rows are indexed by the kept part and columns by the
+        traced out part
+
+    Returns
+    -------
+    jnp.ndarray
+        State vector (d,1) or density matrix (d,d) of the kept part
+    """
+    rho = jnp.matmul(amplitudes, jnp.conj(amplitudes.T))
+    trace = jnp.real(jnp.trace(rho))
+    purity = jnp.real(jnp.trace(jnp.matmul(rho, rho)))
+    if jnp.abs(purity - trace**2) <= tol * trace**2:
+        norms = jnp.linalg.norm(amplitudes, axis=0)
+        column = amplitudes[:, jnp.argmax(norms)]
+        vector = column / jnp.linalg.norm(column) * jnp.sqrt(trace)
+        return vector.reshape(-1, 1)
+    return rho
+
+
 def num_quanta_vector(vector: Union[jnp.ndarray, np.ndarray]) -> int:
     """
     Returns highest possible measurement outcome
